@@ -7,7 +7,9 @@ from harness.common import Check
 from translate import guards as t_guards
 
 THEOREMS = ["C19_guards_present", "C19_dense_ctor_rejects", "C19_dense_ctor_accepts", "C19_conv_ctor_rejects",
-            "C19_conv_ctor_accepts", "C19_compiler_rejects", "C19_gumbel_rejects", "C19_conv_default_padding"]
+            "C19_conv_ctor_accepts", "C19_compiler_rejects", "C19_gumbel_rejects", "C19_conv_default_padding",
+            "C19_groupsum_ctor_rejects", "C19_groupsum_ctor_accepts", "C19_pool_compile_decides", "C19_pool_accepted_wf",
+            "C19_compiled_forward_decides"]
 TRUSTED = [
     "Coq 8.16.1 kernel/coqc; theorems closed under the global context",
     "translator translate/guards.py: presence of each modelled guard in the unparsed source of the named function (text match after "
@@ -29,6 +31,11 @@ def cstr(s):
     return '"' + s + '"'
 
 
+def impl_str(v):
+    """the implementation argument as the model's string ("" = None); non-strings get a name no implementation has"""
+    return "" if v is None else (v if isinstance(v, str) and v != "" else f"<{v!r}>".replace('"', "'"))
+
+
 def run(ck: Check):
     from torchlogix.layers import LogicDense, LogicConv2d, LogicConv3d, GroupSum
     from torchlogix import CompiledLogicNet
@@ -43,7 +50,7 @@ def run(ck: Check):
     ck.prove("Props/C19", THEOREMS)
     rng = ck.rng
     reps = 2 if ck.tier == "quick" else 10
-    dense_rows, conv_rows, comp_rows = [], [], []
+    dense_rows, conv_rows, comp_rows, fwd_rows = [], [], [], []
 
     def record(component, cfg, in_domain, got):
         ck.case({"component": component, **cfg}, nontrivial=not in_domain, kind=component + ("-invalid" if not in_domain else "-valid"))
@@ -121,9 +128,16 @@ def run(ck: Check):
             variants = [("ok", {}), ("stride>rf", {"stride": base["receptive_field_size"] + 1}),
                         ("image<rf", {"in_dim": tuple([2] * dims), "receptive_field_size": 3, "padding": 0}),
                         ("image<rf-padded-ok", {"in_dim": tuple([2] * dims), "receptive_field_size": 3, "padding": 1}),
-                        ("connections", {"connections": "unique"}),
+                        ("connections", {"connections": "uniq"}), ("connections", {"connections": "Random"}),
                         ("unique-too-many", {"connections": "random-unique", "receptive_field_size": 1, "channels": 2, "tree_depth": 1}),
-                        ("unique-ok", {"connections": "random-unique", "receptive_field_size": 2, "tree_depth": 1})]
+                        ("unique-too-many", {"connections": "unique", "receptive_field_size": 1, "channels": 2, "tree_depth": 1}),
+                        ("unique-ok", {"connections": "random-unique", "receptive_field_size": 2, "tree_depth": 1}),
+                        ("unique-ok", {"connections": "unique", "receptive_field_size": 2, "tree_depth": 1}),
+                        ("implementation", {"implementation": "bogus"}), ("implementation", {"implementation": "CUDA"}),
+                        ("implementation", {"implementation": ""}), ("implementation", {"implementation": 42}),
+                        ("ok-implementation", {"implementation": "python"}),
+                        ("padding<0", {"padding": -1}), ("padding<0", {"padding": -2, "in_dim": tuple([7] * dims)}),
+                        ("ok-padding", {"padding": 2})]
             if dims == 2:
                 variants += [("parametrization", {"parametrization": "anf"}), ("weight_init", {"weight_init": "ones"}),
                              ("forward_sampling", {"forward_sampling": "sample"})]
@@ -133,11 +147,13 @@ def run(ck: Check):
                 got = outcome(lambda: cls(device="cpu", **kw))
                 rf = cfg["receptive_field_size"]
                 P = rf ** dims * cfg["channels"]
-                dom = cfg["stride"] <= rf and all(rf <= v + 2 * cfg["padding"] for v in cfg["in_dim"]) and \
-                    cfg["connections"] in ("random", "random-unique") and cfg.get("parametrization", "raw") in ("raw", "walsh") and \
+                uniq = cfg["connections"] in ("random-unique", "unique")
+                dom = cfg["stride"] <= rf and cfg["padding"] >= 0 and all(rf <= v + 2 * cfg["padding"] for v in cfg["in_dim"]) and \
+                    (cfg["connections"] == "random" or uniq) and cfg.get("parametrization", "raw") in ("raw", "walsh") and \
                     cfg.get("weight_init", "residual") in ("residual", "random") and \
                     cfg.get("forward_sampling", "soft") in ("soft", "hard", "gumbel_soft", "gumbel_hard") and \
-                    (cfg["connections"] != "random-unique" or 2 ** cfg["tree_depth"] <= P * (P - 1) // 2)
+                    cfg.get("implementation") in (None, "python", "cuda") and \
+                    (not uniq or 2 ** cfg["tree_depth"] <= P * (P - 1) // 2)
                 record(f"conv{dims}d-ctor", dict(cfg, bad=bad), dom, got)
                 conv_rows.append((dims, cfg, got[0] == "returned"))
         # 3-D non-cubic receptive fields: the stride must not exceed ANY extent
@@ -149,6 +165,12 @@ def run(ck: Check):
         record("conv3d-ctor", {"bad": "default-padding"}, True, got)
         got = outcome(lambda: LogicConv2d(in_dim=3, device="cpu", tree_depth=1, receptive_field_size=2, num_kernels=2))
         record("conv2d-ctor", {"bad": "default-padding"}, True, got)
+    # ---------------- GroupSum constructor
+    gs_rows = []
+    for k in (1, 2, 10, 0, -1, -3):
+        got = outcome(lambda: GroupSum(k, device="cpu"))
+        record("groupsum-ctor", {"k": k, "bad": "k"}, k > 0, got)
+        gs_rows.append((k, got[0] == "returned"))
     # ---------------- conv forward shapes
     for _ in range(reps):
         for dims in (2, 3):
@@ -229,15 +251,60 @@ def run(ck: Check):
         except Exception as e:
             ck.broke("correspondence", "harness", f"could not compile the size-probe library: {e!r}")
             continue
-        for shp in ((8, 11), (8, 10), (8, 12), (11,), (8, 11, 2), (3, 11), (8, 1, 11)):
-            ok_shape = len(shp) >= 2 and int(_np.prod(shp[1:])) == 11
+        for shp in ((8, 11), (8, 10), (8, 12), (11,), (8, 11, 2), (3, 11), (8, 1, 11), (8, 11, 1)):
+            ok_shape = len(shp) == 2 and shp[1] == 11          # LogicDense takes (batch, in_dim) only
             got = outcome(lambda: net2.forward(_np.zeros(shp, dtype=bool)))
             record("compiled-forward-shape", {"groupsum": with_gs, "x_shape": list(shp), "bad": "sample-size"}, ok_shape, got)
+            fwd_rows.append(([11], False, list(shp), got[0] == "returned"))
+    # image models: the declared (channels, height, width) layout or flattened samples, nothing else of the same volume;
+    # a dense model behind a leading Flatten takes any layout of the right volume (as Flatten does)
+    for with_gs in (True, False):
+        C, H, Wd = 2, 4, 6
+        cmdl = hn.make_custom(rng, (C, H, Wd), [("conv", dict(K=2, depth=1, rf=2)), ("flatten",)] + ([("gs", 2)] if with_gs else []))
+        fmdl = torch.nn.Sequential(torch.nn.Flatten(), LogicDense(C * H * Wd, 12, device="cpu"),
+                                   *([GroupSum(3, device="cpu")] if with_gs else []))
+        for kind, mdl3, declared, lf in (("conv", cmdl, [C, H, Wd], False), ("flatten-dense", fmdl, [C * H * Wd], True)):
+            try:
+                net3 = hc.build(mdl3, 8)
+                hc.compile_net(net3)
+            except Exception as e:
+                ck.broke("correspondence", "harness", f"could not compile the layout-probe library: {e!r}")
+                continue
+            for shp in ((5, C, H, Wd), (5, C * H * Wd), (5, C, Wd, H), (5, 1, 2 * H, Wd), (5, 2 * C, H // 2, Wd), (5, 3, 4, 4),
+                        (5, C, H * Wd), (5, C, H, Wd, 1), (5, 1, C, H, Wd), (C, H, Wd), (5, C, H, Wd + 1), (5, C * H * Wd + 1), (0, C, H, Wd),
+                        (0, C, Wd, H)):
+                x3 = _np.zeros(shp, dtype=bool)
+                ref = outcome(lambda: mdl3.eval()(torch.zeros(shp)))
+                vol_ok = len(shp) >= 2 and int(_np.prod(shp[1:])) == C * H * Wd
+                ok_shape = vol_ok and (lf or tuple(shp[1:]) == (C, H, Wd) or len(shp) == 2)
+                got = outcome(lambda: net3.forward(x3))
+                record("compiled-forward-shape", {"model": kind, "groupsum": with_gs, "x_shape": list(shp), "bad": "layout",
+                                                  "torch_model": ref[0]}, ok_shape, got)
+                fwd_rows.append((declared, lf, list(shp), got[0] == "returned"))
+    # an OrPooling outside the domain of max pooling must not compile (the PyTorch model raises on every call)
+    from torchlogix.layers import OrPooling
+    pool_rows = []
+    for _ in range(reps):
+        for dims in (2, 3):
+            n = rng.randrange(4, 7)
+            cases = [(2, 2, 0), (2, 2, 1), (2, 2, 2), (3, 1, 1), (3, 1, 2), (n + 1, 1, 0), (n + 1, 1, (n + 1) // 2), (n + 3, 1, 1),
+                     (n, n, 0), (2, 1, -1), (rng.randrange(1, 5), rng.randrange(1, 4), rng.randrange(0, 4))]
+            for k, st, p in cases:
+                conv = (LogicConv2d if dims == 2 else LogicConv3d)(in_dim=n + 1, device="cpu", channels=1, num_kernels=2, tree_depth=1,
+                                                                  receptive_field_size=2)
+                mdlp = torch.nn.Sequential(conv, OrPooling(k, st, p), torch.nn.Flatten())
+                dom = k > 0 and st > 0 and 0 <= 2 * p <= k and n + 2 * p >= k
+                ref = outcome(lambda: mdlp.eval()(torch.zeros(1, 1, *([n + 1] * dims))))
+                if (ref[0] == "returned") != dom:
+                    ck.broke("correspondence", "harness", f"max pooling domain oracle: k={k} s={st} p={p} n={n}: torch {ref[0]}, oracle {dom}")
+                got = outcome(lambda: CompiledLogicNet(mdlp, num_bits=8))
+                record("compiler-pool", {"dims": dims, "map": n, "kernel": k, "stride": st, "padding": p, "bad": "pool-domain"}, dom, got)
+                pool_rows.append((k, st, p, [n] * dims, got[0] == "returned"))
     got = outcome(lambda: CompiledLogicNet(torch.nn.Sequential(torch.nn.Flatten(), GroupSum(1, device="cpu")), num_bits=8))
     record("compiler-ctor", {"bad": "no-logic-layer"}, False, got)
     comp_rows.append((8, "gcc", 0, got[0] == "returned"))
     # ---------------- decision model in the kernel vs observed outcomes
-    txt = ("From Coq Require Import String List Bool Arith. Import ListNotations.\nFrom TLX Require Import Model.Domain.\nLocal Open Scope string_scope.\n")
+    txt = ("From Coq Require Import String ZArith List Bool Arith. Import ListNotations.\nFrom TLX Require Import Model.Domain.\nLocal Open Scope string_scope.\n")
     drows = [r for r in dense_rows]
     txt += "Eval vm_compute in [" + ";\n ".join(
         f"dense_ctor_accepts {{| dc_in := {c['in_dim']}; dc_out := {c['out_dim']}; dc_connections := {cstr(c['connections'])}; "
@@ -245,11 +312,17 @@ def run(ck: Check):
         for c, _ in drows) + "].\n"
     txt += "Eval vm_compute in [" + ";\n ".join(
         f"conv_ctor_accepts {{| cc_dims := {nets._nl(c['in_dim'])}; cc_rf := {nets._nl([c['receptive_field_size']] * d)}; cc_channels := {c['channels']}; "
-        f"cc_depth := {c['tree_depth']}; cc_stride := {c['stride']}; cc_pad := {c['padding']}; cc_connections := {cstr(c['connections'])}; "
+        f"cc_depth := {c['tree_depth']}; cc_stride := {c['stride']}; cc_pad := ({c['padding']})%Z; cc_connections := {cstr(c['connections'])}; "
         f"cc_param := {cstr(c.get('parametrization', 'raw'))}; cc_weight_init := {cstr(c.get('weight_init', 'residual'))}; "
-        f"cc_sampling := {cstr(c.get('forward_sampling', 'soft'))} |}}" for d, c, _ in conv_rows) + "].\n"
+        f"cc_sampling := {cstr(c.get('forward_sampling', 'soft'))}; cc_impl := {cstr(impl_str(c.get('implementation')))} |}}"
+        for d, c, _ in conv_rows) + "].\n"
     txt += "Eval vm_compute in [" + "; ".join(
         f"compiler_accepts {max(b, 0)} {cstr(cc)} {nl}" for b, cc, nl, _ in comp_rows) + "].\n"
+    txt += "Eval vm_compute in [" + "; ".join(f"groupsum_ctor_accepts ({k})%Z" for k, _ in gs_rows) + "].\n"
+    txt += "Eval vm_compute in [" + "; ".join(
+        f"pool_compile_accepts ({k}) ({st}) ({p}) {nets._zl(dm)}" for k, st, p, dm, _ in pool_rows) + "].\n"
+    txt += "Eval vm_compute in [" + ";\n ".join(
+        f"compiled_forward_accepts {nets._nl(d)} {'true' if lf else 'false'} {nets._nl(shp)}" for d, lf, shp, _ in fwd_rows) + "].\n"
     rc, out, err = ck.coq_eval("c19m", txt)
     if rc != 0:
         ck.broke("correspondence", "kernel evaluation of Model/Domain", err[-600:])
@@ -267,6 +340,18 @@ def run(ck: Check):
             ck.count("model_vs_impl_decisions")
             if b >= 0 and bool(m) != acc:
                 ck.broke("correspondence", "Model/Domain.compiler_accepts", f"bits={b} cc={cc!r}: model {m}, implementation {'accepts' if acc else 'rejects'}")
+        for (k, acc), m in zip(gs_rows, v[3]):
+            ck.count("model_vs_impl_decisions")
+            if bool(m) != acc:
+                ck.broke("correspondence", "Model/Domain.groupsum_ctor_accepts", f"k={k}: model {m}, implementation {'accepts' if acc else 'rejects'}")
+        for (k, st, p, dm, acc), m in zip(pool_rows, v[4]):
+            ck.count("model_vs_impl_decisions")
+            if bool(m) != acc:
+                ck.broke("correspondence", "Model/Domain.pool_compile_accepts", f"k={k} s={st} p={p} map={dm}: model {m}, implementation {'accepts' if acc else 'rejects'}")
+        for (d, lf, shp, acc), m in zip(fwd_rows, v[5]):
+            ck.count("model_vs_impl_decisions")
+            if bool(m) != acc:
+                ck.broke("correspondence", "Model/Domain.compiled_forward_accepts", f"declared={d} leading_flatten={lf} x.shape={shp}: model {m}, implementation {'accepts' if acc else 'rejects'}")
     return ck.finish()
 
 
